@@ -10,6 +10,7 @@ import (
 
 	"verif/seqx/wsgen"
 	"verif/track"
+	"verif/vkit"
 	"verif/vsched"
 )
 
@@ -102,6 +103,7 @@ func startWriterMsgs(w *world, conn *websocket.Conn, i int, mine []*outMsg, f in
 
 func directBody(c dcfg) func() {
 	return func() {
+		vkit.Log.TakeErrors() // lines of a preceding execution that was cut short (pruned) are not this one's
 		w := &world{}
 		tr := track.New(track.Pooled)
 		mempool.DefaultMemPool = tr
